@@ -20,8 +20,24 @@ impl<'a> Toks<'a> {
     }
 }
 
-/// value token: decimal integer or h<proc>.<j> (j-th element of the hash of procedure proc)
+thread_local! {
+    /// Merkle tree of the current case (root, leaves), for the value tokens r.<j> and l<i>.<j>
+    pub static MERKLE: std::cell::RefCell<Option<(Vec<u64>, Vec<Vec<u64>>)>> = std::cell::RefCell::new(None);
+}
+
+/// value token: decimal integer, h<proc>.<j> (j-th element of the hash of procedure proc),
+/// r.<j> (j-th element of the root of the case's Merkle tree) or l<i>.<j> (element of leaf i)
 pub fn parse_val(t: &str, hashes: &[Digest]) -> u64 {
+    if let Some(rest) = t.strip_prefix("r.") {
+        let j: usize = rest.parse().unwrap();
+        return MERKLE.with(|m| m.borrow().as_ref().expect("no merkle tree in this case").0[j]);
+    }
+    if let Some(rest) = t.strip_prefix('l') {
+        let mut it = rest.split('.');
+        let i: usize = it.next().unwrap().parse().unwrap();
+        let j: usize = it.next().unwrap().parse().unwrap();
+        return MERKLE.with(|m| m.borrow().as_ref().expect("no merkle tree in this case").1[i][j]);
+    }
     if let Some(rest) = t.strip_prefix('h') {
         let mut it = rest.split('.');
         let p: usize = it.next().unwrap().parse().unwrap();
